@@ -22,9 +22,22 @@ def why_not_expressible(doc):
     """None when the document is inside C02's quantifier, else a short reason"""
     from prov.model import Literal
     from prov.identifier import QualifiedName
+    def bad_ns(q):
+        u = q.namespace.uri
+        return (not u.isascii()) or any(ch in u for ch in ' <>"{}|\\^`')
     for c in [doc] + list(doc.bundles):
+        if c.identifier is not None and bad_ns(c.identifier):
+            return "namespace_uri_not_a_uri"
+        for n in c.namespaces:
+            if (not n.uri.isascii()) or " " in n.uri:
+                return "namespace_uri_not_a_uri"
         for r in c.get_records():
+            if r.identifier is not None and bad_ns(r.identifier):
+                return "namespace_uri_not_a_uri"
             for a, v in r.attributes:
+                if bad_ns(a) or (isinstance(v, QualifiedName) and bad_ns(v)) or (
+                        isinstance(v, Literal) and isinstance(v.datatype, QualifiedName) and bad_ns(v.datatype)):
+                    return "namespace_uri_not_a_uri"
                 if a.namespace.uri != PROV_NS and not is_ncname(a.localpart):
                     return "attr_local_not_ncname"
                 if isinstance(v, str):
